@@ -13,23 +13,23 @@ add("C03", "model_checking",
 
 add("C01", "exploration",
     "exhaustive input-lattice enumeration (bounded model checking of a sequential API) against exact rational arithmetic",
-    "Every n x n matrix over a small signed alphabet (n<=3 quick, n<=4 thorough) with every right-hand side over {0,+-1}, every permutation P in the P*L*U family up to n=6, the tiny-pivot lattice {0,1,-1,2,+-1e-20}, uniformly scaled twins (2^-60 .. 1e18), Complex<f64> lattices, and every nonsingular 3x3 matrix over {0,+-1} reached through six construction/editing paths (delete_row, resize, set_col + transposes, grown from empty + row swaps) are solved by the real solve_basic and solve_lu; exact equality A*x=b over rationals, normwise backward error <= 1e-12 over floats (worst observed ~1e-16 is recorded), mutual agreement. Exhaustive within the alphabets/orders; silent about larger orders and general f64 bit patterns.",
+    "Every n x n matrix over a small signed alphabet (n<=3 quick, n<=4 thorough) with every right-hand side over {0,+-1}, every permutation P in the P*L*U family up to n=6, the tiny-pivot lattice {0,1,-1,2,+-1e-20}, uniformly scaled twins (2^-60 .. 1e18), every 3x3 matrix over {0,+-1,2^20,2^-20} whose exact condition number is at most 2^44, Complex<f64> lattices, and every nonsingular 3x3 matrix over {0,+-1} reached through six construction/editing paths (delete_row, resize, set_col + transposes, grown from empty + row swaps) are solved by the real solve_basic and solve_lu; exact equality A*x=b over rationals, normwise backward error <= 1e-12 over floats (worst observed ~1e-16 is recorded), mutual agreement. Exhaustive within the alphabets/orders; silent about larger orders and general f64 bit patterns.",
     "Trusted: cofactor determinant deciding nonsingularity, the checked-i128 rational type, the fma-based residual. f64 lattices contain only well-conditioned systems (tiny perturbations of nonsingular integer matrices) so any backward-stable solver passes.",
     "DESIGN.md section 6 C01")
 add("C02", "exploration",
     "exhaustive input-lattice enumeration including all singular members, against cofactor/Bareiss determinant over exact rationals",
-    "All matrices over {0,+-1,+-2} (n<=2), {0,+-1} (n=3; n=4 and 5-letter n=3 thorough), all signed permutation matrices n<=6, transposition products with sign flips for n=7,8, triangular and rank-deficient families up to n=8: determinant() must equal the exact determinant (0 on singular input, correct sign), A*inv=inv*A=I exactly, operand equal to its pre-call clone; f64/Complex<f64> twins within 1e-12 (Hadamard-scaled) / 1e-10.",
+    "All matrices over {0,+-1,+-2} (n<=2), {0,+-1} (n=3; n=4 and 5-letter n=3 thorough), all signed permutation matrices n<=6, transposition products with sign flips for n=7,8, triangular and rank-deficient families up to n=8: determinant() must equal the exact determinant (0 on singular input, correct sign), A*inv=inv*A=I exactly, operand equal to its pre-call clone; f64/Complex<f64> twins within 1e-12 (Hadamard-scaled) / 1e-10; every 3x3 matrix over {0,+-1,2^20,2^-20} (1.95e6, singular members included) against the exact integer determinant and adjugate of the scaled matrix in the normwise backward-stable measure.",
     "Trusted: independent cofactor (n<=5) and fraction-free Bareiss (n>5) determinants; orders 5..8 only through structured families.",
     "DESIGN.md section 6 C02")
 
 add("C04", "model_checking",
     "exhaustive enumeration of band fillings for every (n,m1,m2) + explicit-state BFS over mutation histories of real Banded<Rat> objects, dense twin as reference model",
-    "Every size/bandwidth triple up to n=4 (quick) / 5 (thorough) with every filling of the band over small signed alphabets, Toeplitz and deviation-bounded families up to n=10, each under several padding values (0, 7, NaN): index, product, det and solve are compared with the dense twin exactly over rationals; f64/Complex<f64> twins with 1e-20 letters by backward error and bit-identity across paddings. BFS over set/fill/arithmetic histories with the complete compact storage (padding included) as state.",
+    "Every size/bandwidth triple up to n=4 (quick) / 5 (thorough) with every filling of the band over small signed alphabets, Toeplitz and deviation-bounded families up to n=10, each under several padding values (0, 7, NaN): index, product, det and solve are compared with the dense twin exactly over rationals; f64/Complex<f64> twins with 1e-20 letters by backward error and bit-identity across paddings; every n = 3 band over {0,+-1,2^20,2^-20} for all nine bandwidth pairs. BFS over set/fill/arithmetic histories with the complete compact storage (padding included) as state.",
     "Trusted: dense reference (cofactor determinant, exact rationals). f64 lattices restricted to well-conditioned members. n>5 through structured families only.",
     "DESIGN.md section 6 C04")
 add("C05", "model_checking",
     "exhaustive enumeration of all three diagonals for n<=5 against the dense twin and exact pivot-free elimination + explicit-state BFS over mutation histories",
-    "All tridiagonal matrices over 5 letters for n<=3 (n=4 over 4/5 letters, n=5 over 3 letters; deeper in thorough), Toeplitz families n=6..12 with the pivot of each step forced to zero: convert/transpose/index/det/product must equal the dense twin and solve must return the exact solution iff exact Thomas elimination meets no zero pivot, else panic with the zero-pivot message. BFS over index writes, transposes, arithmetic and resizes for orders 1..3.",
+    "All tridiagonal matrices over 5 letters for n<=3 (n=4 over 4/5 letters, n=5 over 3 letters; deeper in thorough), Toeplitz families n=6..12 with the pivot of each step forced to zero: convert/transpose/index/det/product must equal the dense twin and solve must return the exact solution iff exact Thomas elimination meets no zero pivot, else panic with the zero-pivot message; Complex<f64> bands over {0,1,i,-1+i,-2i,3} (n <= 3, every filling): determinant, conjugate, product and solve against exact Thomas elimination over the Gaussian rationals. BFS over index writes, transposes, arithmetic and resizes for orders 1..3.",
     "Trusted: dense reference and an independent exact Thomas recurrence that decides which outcome is required. f64 stability only checked on strictly diagonally dominant families.",
     "DESIGN.md section 6 C05")
 
@@ -46,7 +46,7 @@ add("C07", "model_checking",
 
 add("C08", "exploration",
     "exhaustive enumeration of small hostile systems x every iteration budget 0..8 x every solver entry point, true residual from an independent dense copy",
-    "Every 2x2 system over 6 letters, every 3x3 system over {0,1,-1} and deviation-bounded neighbourhoods of SPD / nonsymmetric / indefinite / singular bases (thorough: every 3x3 over 4 letters, 2.5e8 solver runs), with general, zero and badly scaled right-hand sides, two guesses, three tolerances, every budget 0..8 and all five solver entry points; benign families to order 60. Whenever a solver answers Ok the true residual (double-double accumulation) must be within tol plus the measured drift allowance, k <= budget, x finite; budget 0 leaves x bit-identical. Err answers are never judged.",
+    "Every 2x2 system over 6 letters, every 3x3 system over {0,1,-1} and deviation-bounded neighbourhoods of SPD / nonsymmetric / indefinite / singular bases (thorough: every 3x3 over 4 letters, 2.5e8 solver runs), with general, zero and badly scaled right-hand sides, two guesses, three tolerances, every budget 0..8 and all five solver entry points; mixed-scale lattices (every 2x2 matrix over {0,+-1,2,+-1e-6,+-1e6,1/2,-3}; every 3x3 matrix over {0,+-1,1e-6,1e6} in the thorough tier, the <=2-entry neighbourhoods of three near-breakdown members in the quick tier); benign families to order 60, also row/column-scaled by powers of ten up to 1e+-3 with budgets up to 40n. Whenever a solver answers Ok the true residual (double-double accumulation) must be within tol plus the measured drift allowance, k <= budget, x finite; budget 0 leaves x bit-identical. Err answers are never judged.",
     "Trusted: dense residual computation; drift allowance uses the largest iterate obtained by re-running with budgets 1..k (solvers deterministic). Silent about systems outside the lattices and about drift inside one update.",
     "DESIGN.md section 6 C08")
 add("C09", "exploration",
@@ -57,17 +57,17 @@ add("C09", "exploration",
 
 add("C10", "model_checking",
     "explicit-state BFS over query/edit/query histories of one polynomial object (differential oracle against a fresh twin) + exhaustive enumeration of root multisets and coefficient vectors, backward error in the property's own measure",
-    "Every multiset of up to 5 (quick) / 7 (thorough) roots from a 12-letter alphabet (zero, unit, conjugate, repeated, 1e3 and 1e-3 roots) with four leading coefficients, every integer and Gaussian-integer coefficient vector of degree <= 4/5 with non-zero lead, conjugate-closed multisets through the f64 entry point, and degree 8..12 products with x^k-1, a wide-scale complex coefficient lattice (1, i, +-1e3, +-1e3 i, +-1e-3, +-1e-3 i) of degree 2-3(4), each with and without refinement: exactly n finite values, each with |p(z)|/(max|a_k| max(1,|z|)^n) below a per-path threshold (refined 1e-9, quadratic 1e-12, Cardano 1e-7, Laguerre 1e-9 / 1e-2 with a root of modulus 1e3), one-to-one matching for simple separated roots, degree 0 rejected. BFS: roots() queried, coefficients edited through IndexMut / coeffs() / trim, roots() queried again - bit-identical to a freshly built polynomial.",
-    "Trusted: independent complex Horner evaluation. Thresholds are >= 40x the worst value observed on the repaired tree (recorded in the evidence); polynomials outside the alphabets / degree > 12 are not covered.",
+    "Every multiset of up to 7 (quick) / 11 (thorough) roots from a 12-letter alphabet (zero, unit, conjugate, repeated, 1e3 and 1e-3 roots) with four leading coefficients, every integer and Gaussian-integer coefficient vector of degree <= 6/9 with non-zero lead, conjugate-closed multisets through the f64 entry point, degree 8..12 products with x^k-1, nearly binomial polynomials lead x^n + a x^k + c (n = 4..12, |c| up to 1e6), and EVERY coefficient vector over the wide-scale complex letters (1, i, +-1e3, +-1e3 i, +-1e-3, +-1e-3 i) of degree 2..5 (quick, 2.2e6 polynomials) / 2..6 (thorough, 7.7e7 in total), each with and without refinement: exactly n finite values, each with |p(z)|/(max|a_k| max(1,|z|)^n) below a per-path threshold (1e-9 refined and unrefined, quadratic 1e-12, Cardano 1e-7), one-to-one matching for simple separated roots, degree 0 rejected. BFS: roots() queried, coefficients edited through IndexMut / coeffs() / trim, roots() queried again - bit-identical to a freshly built polynomial.",
+    "Trusted: independent complex Horner evaluation. Thresholds are >= 100x the worst value observed on the repaired tree (recorded in the evidence); polynomials outside the alphabets / degree > 12 are not covered.",
     "DESIGN.md section 6 C10")
 add("C11", "model_checking",
     "exhaustive pair enumeration over three element types + explicit-state BFS over ring-operation histories against a coefficient-list model",
-    "All ordered pairs of coefficient vectors of length 0..3 (quick) / 0..4 (thorough) over {-1,0,1,2} for rationals, f64 and Complex<f64>, plus a structured family up to length 9: every operator (owned and borrowed), evaluation homomorphism at six points, derivative_n for every order 0..deg+1, linearity and product rule; BFS over histories of add/sub/mul/neg/scale/derivative/trim/coefficient writes on a real Polynomial<Rat>.",
+    "All ordered pairs of coefficient vectors of length 0..3 (quick) / 0..4 (thorough) over {-1,0,1,2} for rationals, f64 and Complex<f64>, plus a structured family up to length 9: every operator (owned and borrowed), evaluation homomorphism at six points, derivative_n for every order 0..deg+1, linearity and product rule, is_zero and trim (element equality decided by the harness, not by the element type's PartialEq); evaluation of every integer polynomial of length <= 5 (7) at +-2^600 and +-2^-600 against the correctly rounded exact value; BFS over histories of add/sub/mul/neg/scale/derivative/trim/coefficient writes on a real Polynomial<Rat>.",
     "Trusted: termwise/convolution list model. Comparison is modulo trailing zeros as the property states; stored length may not exceed the natural one.",
     "DESIGN.md section 6 C11")
 add("C12", "exploration",
     "exhaustive enumeration of dividend/divisor pairs over exact and floating alphabets with a per-call hang watchdog",
-    "Every dividend of length 0..4 and divisor of length 0..3 over {0,+-1,+-2} exactly; 2.7e6 (quick) / 2.2e7 (thorough) f64 pairs over {1,-3,0.1,49,1e-6,-7.3e5,0,1/3} whose leading terms mostly do not cancel exactly; integer-valued f64 and Complex<f64> lattices: Ok iff the divisor is non-zero (leading coefficient non-zero), u = q*v + r exactly / to 1e-13 (double-double residual), deg r < deg v or r = 0, Err on empty/zero divisors, no panic, no spin (20 s watchdog per call).",
+    "Every dividend of length 0..4 and divisor of length 0..3 over {0,+-1,+-2} exactly; 2.7e6 (quick) / 1.75e8 (thorough) f64 pairs over {1,-3,0.1,49,1e-6,-7.3e5,0,1/3} whose leading terms mostly do not cancel exactly, f64 dividends of degree 5..10 with divisors of degree 0..6 built from letter cycles; integer-valued f64 and Complex<f64> lattices: Ok iff the divisor is non-zero (leading coefficient non-zero), u = q*v + r exactly / to 1e-13 (double-double residual), deg r < deg v or r = 0, Err on empty/zero divisors, no panic, no spin (20 s watchdog per call).",
     "Trusted: independent convolution; divisors with zero stored leading coefficient are outside the claim.",
     "DESIGN.md section 6 C12")
 
@@ -78,7 +78,7 @@ add("C13", "model_checking",
     "DESIGN.md section 6 C13")
 add("C14", "exploration",
     "exhaustive evaluation of all 38 functions on a branch-cut-aware lattice of the complex plane against an independent series implementation",
-    "Rectangular, polar and cut-adjacent grids (1.6e3 points quick, 2.6e4 thorough) covering every quadrant, both axes, both sides (+-1e-9, +-1e-13, +-0) of every cut and 1e-6 neighbourhoods of the branch points: forward functions against exp by scaling-and-squaring Taylor series (1e-9), every inverse pinned by forward_oracle(inverse(z)) = z (1e-8) plus its principal range, reciprocals, Pythagorean identities, z^w = exp(w ln z) for 7 exponents, polar round trip, reduction to f64 on the real axis.",
+    "Rectangular, polar and cut-adjacent grids (1.6e3 points quick, 2.6e5 thorough) covering every quadrant, both axes, both sides (+-1e-9, +-1e-13, +-0) of every cut and 1e-6 neighbourhoods of the branch points: forward functions against exp by scaling-and-squaring Taylor series (1e-9), every inverse pinned by forward_oracle(inverse(z)) = z (1e-8) plus its principal range, reciprocals, Pythagorean identities, z^w = exp(w ln z) for 7 exponents, polar round trip, reduction to f64 on the real axis.",
     "Trusted: own complex arithmetic and Taylor exp. The continuum between lattice points is not covered; which side of a cut is continuous is not prescribed.",
     "DESIGN.md section 6 C14")
 
@@ -89,13 +89,13 @@ add("C15", "model_checking",
     "DESIGN.md section 6 C15")
 add("C16", "model_checking",
     "stateless exploration of ALL thread interleavings of the real dot_f64 under shuttle's DFS scheduler + exhaustive (length, worker-count) sweep with real threads and real CPU affinity",
-    "Guard on: for workers 1..4 (quick) / 1..6 (thorough) and lengths {0,1,W-1,W,W+1,2W+1,4W+3} on integer and cancellation-prone data, shuttle enumerates every schedule (1/5/44/550/... per configuration); the set of results over all schedules must be a singleton, exact on integer data, and the enumeration is repeated to prove the explorer owns every choice. Guard off: every worker count 1..16 obtained through CPU affinity (num_cpus::get() asserted) x every length 0..200: bit-identical to dot and to an exact i128 product on integer data, within the reassociation bound and bit-identical across repeated calls otherwise.",
+    "Guard on: for workers 1..4 (quick) / 1..6 (thorough) and lengths {0,1,W-1,W,W+1,2W+1,4W+3} on integer and cancellation-prone data, shuttle enumerates every schedule (1/5/44/550/... per configuration); the set of results over all schedules must be a singleton, exact on integer data, and the enumeration is repeated to prove the explorer owns every choice. Guard off: every worker count 1..16 obtained through CPU affinity (num_cpus::get() asserted) x every length 0..200: bit-identical to dot and to an exact i128 product on integer data, within the reassociation bound and bit-identical across repeated calls otherwise; one infinite / NaN / 1e308 entry among small integers gives the sequential result; shorter calls right after long ones see no stale state.",
     "Trusted: shuttle 0.9.3 as scheduler (scoped threads, join, Mutex/atomics if a rewrite introduces them are interception points). Unsynchronised unsafe sharing would be invisible to a cooperative scheduler. Worker counts above the CPUs available cannot be swept.",
     "DESIGN.md section 6 C16")
 
 add("C17", "model_checking",
-    "stateless depth-first exploration of all answer scripts of the user closure (deviation-bounded) + exhaustive family x guess x tolerance x iteration-limit lattices with an exact Newton reference",
-    "Termination half: for all six solve / solve_jacobian entry points, max_iter 0..3 and three base functions (root-free, non-differentiable, ordinary) every script that replaces the closure's answer (for systems: either residual component) at any call position by 0, NaN, +inf, 1e300 or the negated value is executed, up to 1 (quick) / 2 (thorough) deviations, each twice: the call returns, evaluations <= 3 (scalar) / n+2 per iteration, root-free => Err, a system never reports success unless some residual was small, the user-Jacobian system entries agree call for call with a reference model of the stopping rule (first residual with every component modulus <= tol, a NaN component never counts), identical observations. Convergence half: 11 real scalar, 5 complex scalar families and real/complex systems of dimension 1..6 with guesses across a conservative basin, 5 tolerances, 7 iteration limits: Ok => near the analytic root, enough iterations => Ok, Err carries the max_iter-th Newton iterate, max_iter 0 => Err(guess) bit for bit, parameters() unchanged.",
+    "stateless depth-first exploration of all answer scripts of the user closure (deviation-bounded) + explicit-state BFS over configuration / solve histories of one Newton object + exhaustive family x guess x tolerance x iteration-limit lattices with an exact Newton reference",
+    "Termination half: for all six solve / solve_jacobian entry points, max_iter 0..3 (thorough 0..5) and seven base functions (root-free, non-differentiable, ordinary, started at 1.5 and at 0; a linear one started at its root) every script that replaces the closure's answer (for systems: either residual component) at any call position by 0, NaN, +inf, 1e300 or the negated value is executed, up to 1 (quick) / 2..4 (thorough) deviations, each twice: the call returns, evaluations <= 3 (scalar) / n+2 per iteration, root-free => Err, a system never reports success unless some residual was small, the user-Jacobian system entries agree call for call with a reference model of the stopping rule (first residual with every component modulus <= tol, a NaN component never counts), identical observations; BFS over every configuration (tolerance, delta, iteration limit, guess setters) and solve history of depth 4 (6): each solve bit-identical to that of a freshly configured object. Convergence half: 11 real scalar, 5 complex scalar families and real/complex systems of dimension 1..6 with guesses across a conservative basin, 5 tolerances, 7 iteration limits: Ok => near the analytic root, enough iterations => Ok, Err carries the max_iter-th Newton iterate, max_iter 0 => Err(guess) bit for bit, parameters() unchanged.",
     "Trusted: analytic roots/derivatives of the families, the harness' own Newton reference and dense LU. Closures outside the families and scripts with more deviations are not covered.",
     "DESIGN.md section 6 C17")
 add("C18", "exploration",
@@ -105,12 +105,12 @@ add("C18", "exploration",
     "DESIGN.md section 6 C18")
 add("C19", "model_checking",
     "exhaustive enumeration of spacing words / node counts + explicit-state BFS over write histories (object rebuilt by replay), map model",
-    "1-D meshes with every spacing word over {1/4,1/2,1,2} for 2..6 nodes, deviation-bounded words for 7..12 nodes and a non-dyadic family: every access path bit for bit (stored -0.0 included), interpolation at every node and at interior points of every cell, trapezium = cell sum and exact on linear data, output->read round trip; 2-D meshes over all node-count pairs 2..5: both cross-section orientations, var_as_matrix, apply, assign, trapezium/square_trapezium, exact on bilinear data. BFS over set/index-write/assign/apply histories on 2x3 and 3x2 meshes.",
+    "1-D meshes with every spacing word over {1/4,1/2,1,2} for 2..7 (thorough 2..9) nodes, deviation-bounded words up to 12 nodes and a non-dyadic family: every access path bit for bit (stored -0.0 included), interpolation at every node and at interior points of every cell, trapezium = cell sum and exact on linear data, output->read round trip; 2-D meshes over all node-count pairs 2..8 (thorough 2..12): both cross-section orientations, var_as_matrix, apply, assign, trapezium/square_trapezium, exact on bilinear data. BFS over set/index-write/assign/apply histories on 2x3 and 3x2 meshes.",
     "Trusted: integer-valued / dyadic nodal data make f64 results exact on power-of-two grids. Interpolation is never probed within 1e-6 of a node except at it.",
     "DESIGN.md section 6 C19")
 
 add("C20", "model_checking",
     "exhaustive entry-point x size-pair table under panic capture with operand snapshots + explicit-state BFS over interleaved mutations of a value and its clone",
-    "92 entry points (every binary operator in owned and borrowed form, solver entry and checked accessor of Vector, Matrix, Banded, Tridiagonal, Sparse, Mesh1D/2D, Polynomial) x all size/shape pairs up to 6 (matrices to 3x3 quick / 4x4 thorough) and every index argument up to size+2 (about 12 400 calls quick): panic iff mismatched / out of range, operands equal their snapshots after a refusal and after every by-reference call, owned == borrowed results; the owned and borrowed forms of every operator of Matrix, Vector, Banded, Tridiagonal and Polynomial compared bit for bit on all 4-tuples of f64 / Complex<f64> letters with signed zeros and infinities. BFS over mutations applied to a value or its clone and re-cloning, for five container types, with independent models.",
+    "92 entry points (every binary operator in owned and borrowed form, solver entry and checked accessor of Vector, Matrix, Banded, Tridiagonal, Sparse, Mesh1D/2D, Polynomial) x all size/shape pairs up to 6 (matrices to 3x3 quick / 6x6 thorough) and every index argument up to size+2 (about 12 400 calls quick): panic iff mismatched / out of range, operands equal their snapshots after a refusal and after every by-reference call, owned == borrowed results; the owned and borrowed forms of every operator of Matrix, Vector, Banded, Tridiagonal and Polynomial compared bit for bit on all 4-tuples of f64 / Complex<f64> letters with signed zeros and infinities. BFS over mutations applied to a value or its clone and re-cloning, for five container types, with independent models.",
     "Trusted: Debug/field snapshots as the observation of operand state. Raw (i,j) index operators of Matrix, Banded and Mesh2D are excluded, as the property states.",
     "DESIGN.md section 6 C20")
